@@ -1,5 +1,6 @@
 import RLV.Lemmas.Sel
 import RLV.Gen.Effects
+import RLV.Lemmas.Move
 /-! C06 — Cursor and selection stay inside the buffer; movements never edit (property theorems).
 
 `Core.checkAppend` / `Core.checkCommand` are the models of `Cursor.CheckAppend` / `CheckCommand`
@@ -68,5 +69,35 @@ theorem effect_table_is_meaningful :
     unguarded "kill-line" = some ["selection.Cut"] ∧
     Gen.Effects.guardedWriters.lookup "forward-word" = some ["line.Insert"] ∧
     (unguarded "self-insert").map (·.contains "cursor.InsertAt") = some true := by decide
+
+/-! ### The Emacs movement commands themselves (`Model/Move`)
+
+`Move.forwardChar`, `backwardChar`, `forwardWord`, `backwardWord`, `beginningOfLine`, `endOfLine` are the
+models of the command closures with their numeric argument (history-autosuggest off), compared with the
+real closures on every run (`rlv-diff -model move`: multi-byte text, newlines, counts). -/
+
+/-- The modelled movements never change the text, the kill ring or the selection — for EVERY buffer,
+cursor (in or out of range), numeric argument and selection state — and whatever the cursor they leave,
+the post-command check puts it inside the buffer. -/
+theorem modelled_movements_never_edit (s s1 : Kill.St) (n : Int) :
+    (Move.forwardChar s n = .ok s1 ∨ Move.backwardChar s n = .ok s1 ∨ Move.forwardWord s n = .ok s1 ∨
+     Move.backwardWord s n = .ok s1 ∨ Move.beginningOfLine s = .ok s1 ∨ Move.endOfLine s = .ok s1) →
+    Move.SameText s s1 ∧ 0 ≤ (Core.checkAppend s1.line s1.cur).pos ∧
+      (Core.checkAppend s1.line s1.cur).pos ≤ Core.len s1.line := by
+  intro h
+  have hr := Core.checkAppend_range s1.line s1.cur
+  refine ⟨?_, hr.1, hr.2.1⟩
+  rcases h with h | h | h | h | h | h
+  · exact Move.forwardChar_same s s1 n h
+  · exact Move.backwardChar_same s s1 n h
+  · exact Move.forwardWordN_same _ s s1 h
+  · exact Move.backwardWordN_same _ s s1 h
+  · exact Move.beginningOfLine_same s s1 h
+  · exact Move.endOfLine_same s s1 h
+
+-- non-vacuity: `ab cd`, cursor 0: forward-word twice goes to the end of `cd`, nothing else changes
+example : (match Move.forwardWord { line := [97, 98, 32, 99, 100], cur := ⟨0, -1⟩, kill := [120] } 2 with
+    | .ok s1 => s1.line == [97, 98, 32, 99, 100] && s1.kill == [120] && (Core.checkAppend s1.line s1.cur).pos == 5
+    | _ => false) = true := by decide
 
 end RLV.Props.C06
